@@ -149,14 +149,32 @@ class Check:
         for n in names:
             self.obligations.append(("theorem:" + n, True, ""))
 
+    def coq_gen(self, name, text, timeout=600):
+        """Write build/<pid>/gen/<name>.v (a table read from the live objects of /repo, plus lemmas that must
+        compile, e.g. `gen = model` by vm_compute) and compile it; logical path PsdVGen.<name>."""
+        gen = os.path.join(self.dir, "gen")
+        os.makedirs(gen, exist_ok=True)
+        path = os.path.join(gen, name + ".v")
+        open(path, "w").write(text)
+        p = subprocess.run(["bash", "-c", "ulimit -s unlimited 2>/dev/null; exec coqc -Q %s PsdV -Q %s PsdVGen %s" % (
+            os.path.join(COQ, "theories"), gen, path)], capture_output=True, text=True, timeout=timeout)
+        ok = p.returncode == 0
+        self.obligations.append(("generated-table:" + name, ok, "" if ok else (p.stderr or p.stdout)[-600:]))
+        return ok
+
     def coq_eval(self, name, body, imports, timeout=900):
         """Write build/<pid>/<name>.v with the imports and body; return coqc stdout (raises on failure)."""
         path = os.path.join(self.dir, name + ".v")
         with open(path, "w") as f:
-            f.write("From PsdV Require Import %s.\nFrom Coq Require Import Uint63.\nOpen Scope Z_scope.\n" % " ".join(imports))
+            f.write("From PsdV Require Import %s.\nFrom Coq Require Import Uint63.\nOpen Scope Z_scope.\n" % " ".join(i for i in imports if not i.startswith("Gen:")))
+            for i in imports:
+                if i.startswith("Gen:"):
+                    f.write("From PsdVGen Require Import %s.\n" % i[4:])
             f.write(body)
-        p = subprocess.run(["bash", "-c", "ulimit -s unlimited 2>/dev/null; exec coqc -Q %s PsdV -o %s %s" % (
-            os.path.join(COQ, "theories"), path[:-2] + ".vo", path)], capture_output=True, text=True, timeout=timeout)
+        gen = os.path.join(self.dir, "gen")
+        extra = ("-Q %s PsdVGen " % gen) if os.path.isdir(gen) else ""
+        p = subprocess.run(["bash", "-c", "ulimit -s unlimited 2>/dev/null; exec coqc -Q %s PsdV %s-o %s %s" % (
+            os.path.join(COQ, "theories"), extra, path[:-2] + ".vo", path)], capture_output=True, text=True, timeout=timeout)
         if p.returncode != 0:
             raise RuntimeError("coqc failed on %s: %s" % (path, (p.stderr or p.stdout)[-800:]))
         return p.stdout
